@@ -31,7 +31,7 @@ def main():
     files = sorted(TARGETS)
     done = 0
     tries = 0
-    while done < count and tries < count * 20:
+    while done < count and tries < count * 400:
         tries += 1
         f = rng.choice(files)
         path = os.path.join("/repo", f)
